@@ -10,6 +10,8 @@ CONSTANTS
   Filters <- FAll
   Order <- OrderStated
   CompileMode = "stated"
+  Inners <- InnersNone
+  ScopeMode = "stated"
 INIT GInitThorough
 NEXT GNextThorough
 INVARIANTS ExpectInv CompileInv Emit
